@@ -5,7 +5,7 @@ run description into a recorded history.  Pure function of the description.
 """
 
 from .env import clock, tm, errlog
-from .world import World, addr_str
+from .world import World, addr_str, H
 from .stacks import VlanStack, RawNode, TOK_BASE, payload, stack_timers
 from . import wire
 
@@ -61,6 +61,9 @@ def execute(desc):
         _hook_app(h, st)
         h.stacks[cfg['name']] = st
         h.cfgs[cfg['name']] = cfg
+
+    if desc.get('adversary'):
+        h.adversary = Adversary(h, lan, desc['adversary'])
 
     if desc.get('iam'):
         for name in sorted(h.stacks):
@@ -212,32 +215,51 @@ def decode_lan_frame(octets):
     return n, wire.decode_apdu(n['apdu'])
 
 
+def _build_outcome_index(h):
+    """Post-run index: attribute every confirmation / IOCB callback to a
+    request.  Direct mode: by (client, peer, invoke id) and submit order."""
+    idx = {}
+    by_key = {}
+    for r in h.reqs:
+        idx[id(r)] = []
+        if r.mode != 'iocb' and r.invoke is not None and r.exc is None:
+            by_key.setdefault((r.c, r.peer, r.invoke), []).append(r)
+    for lst in by_key.values():
+        lst.sort(key=lambda q: q.seq0)
+    names = set(h.stacks) | set(z.name for z in h.zombies)
+    for name in names:
+        sts = ([h.stacks[name]] if name in h.stacks else []) + [z for z in h.zombies if z.name == name and z is not h.stacks.get(name)]
+        for st in sts:
+            for (seq, t, peer, inv, kind, detail, data) in st.app.confs:
+                lst = by_key.get((name, peer, inv))
+                if not lst:
+                    continue
+                owner = None
+                for q in lst:
+                    if q.seq0 < seq:
+                        owner = q
+                    else:
+                        break
+                if owner is not None:
+                    idx[id(owner)].append((seq, t, kind, detail, data))
+            for (seq, t, tok, kind, detail, data, ncb) in st.app.iocb_done:
+                r = h.by_tok.get(tok)
+                if r is not None and r.mode == 'iocb':
+                    idx[id(r)].append((seq, t, kind, detail, data))
+    for v in idx.values():
+        v.sort(key=lambda o: o[0])
+    return idx
+
+
 def outcomes_of(h, r):
     """Outcome events delivered to the client application for request r:
-    list of (seq, t, kind, detail, data)."""
-    c = h.stacks[r.c] if r.c in h.stacks else None
-    out = []
-    if r.mode == 'iocb':
-        for st in [h.stacks[r.c]] + [z for z in h.zombies if z.name == r.c]:
-            for (seq, t, tok, kind, detail, data, ncb) in st.app.iocb_done:
-                if tok == r.tok:
-                    out.append((seq, t, kind, detail, data))
-        return out
-    if r.invoke is None:
-        return out
-    # next request of the same client with the same (peer, invoke)
-    nxt = None
-    for q in h.reqs:
-        if q is not r and q.c == r.c and q.mode != 'iocb' and q.peer == r.peer and q.invoke == r.invoke \
-                and q.seq0 > r.seq0 and q.exc is None:
-            if nxt is None or q.seq0 < nxt:
-                nxt = q.seq0
-    for st in [h.stacks[r.c]] + [z for z in h.zombies if z.name == r.c]:
-        for (seq, t, peer, inv, kind, detail, data) in st.app.confs:
-            if peer == r.peer and inv == r.invoke and seq > r.seq0 and (nxt is None or seq < nxt):
-                out.append((seq, t, kind, detail, data))
-    out.sort()
-    return out
+    list of (seq, t, kind, detail, data).  Post-run only."""
+    idx = getattr(h, '_out_index', None)
+    if idx is None or getattr(h, '_out_index_n', None) != (len(h.reqs), h.w.seq):
+        idx = _build_outcome_index(h)
+        h._out_index = idx
+        h._out_index_n = (len(h.reqs), h.w.seq)
+    return idx.get(id(r), [])
 
 
 def seg_count(n, seg):
@@ -255,3 +277,128 @@ def pt_service_len(n):
     if n <= 0:
         return base
     return base + 1 + wire.octet_tag_overhead(n) + n + 1
+
+
+# ---------------------------------------------------------------------------
+# adversary (C11): a promiscuous station that injects replies / acks / aborts /
+# requests with live invoke ids from a foreign address, wrong ids from the
+# right address, and replays genuine replies after completion.  Its frames
+# bypass the fault plan and the frame-identity counters so that the same
+# description without the adversary is an exact differential baseline.
+
+from .world import U
+from bacpypes.pdu import PDU
+
+ADV_ADDR = 99
+ADV_TOK = 0x7f000000
+
+
+class Adversary:
+    def __init__(self, h, lan, spec):
+        self.h = h
+        self.lan = lan
+        self.spec = spec
+        self.rate = spec.get('rate', 0.2)
+        self.kinds = spec.get('kinds', ['foreign-reply', 'wrong-id-reply', 'late-replay', 'foreign-to-server', 'foreign-request'])
+        self.salt = spec.get('salt', 0)
+        self.delays = spec.get('delays', [0.0, 0.001, 1.0])
+        self.n = 0
+        self.addr_of = {}
+        for cfg in h.desc['stacks']:
+            self.addr_of[str(Address(cfg['addr']))] = cfg
+        h.w.listeners.append(self.on_frame)
+
+    def on_frame(self, rec):
+        w = self.h.w
+        if rec['src'] not in self.addr_of or rec['dst'] not in self.addr_of:
+            return
+        u = U(w.seed, self.salt, 'adv', rec['key'])
+        if u >= self.rate:
+            return
+        n, a = decode_lan_frame(rec['octets'])
+        if a is None or 'invoke' not in a:
+            return
+        hh = H(w.seed, self.salt, 'advk', rec['key'])
+        kind = self.kinds[hh % len(self.kinds)]
+        d = self.delays[(hh >> 8) % len(self.delays)]
+        variant = (hh >> 16) % 6
+        src_cfg = self.addr_of[rec['src']]
+        dst_cfg = self.addr_of[rec['dst']]
+        inv = a['invoke']
+        t = a['type']
+        to_server = t == wire.T_CONF or (t in (wire.T_SEGACK, wire.T_ABORT) and not a.get('srv'))
+        if kind == 'late-replay':
+            if to_server or t == wire.T_SEGACK or (t == wire.T_CACK and a['seg']):
+                return
+            d = self.spec.get('replay_delays', [3.0, 10.0, 40.0])[(hh >> 8) % 3]
+            w.after(d, self._replay, rec['src'], rec['dst'], inv, rec['octets'])
+            return
+        if kind in ('foreign-reply', 'wrong-id-reply'):
+            if not to_server:
+                return
+            client, server = rec['src'], rec['dst']
+            w.after(d, self._fake_reply, kind, client, server, inv, variant) if d > 0 else self._fake_reply(kind, client, server, inv, variant)
+        elif kind == 'foreign-to-server':
+            if not to_server:
+                return
+            server = rec['dst']
+            apdu = [wire.abort_pdu(inv, 0, srv=False), wire.segment_ack(inv, 0, 1, srv=False),
+                    wire.segment_ack(inv, 3, 4, nak=True, srv=False)][variant % 3]
+            self._send(str(ADV_ADDR), server, wire.encode_npdu(apdu), d, 'foreign-to-server')
+        elif kind == 'foreign-request':
+            if t != wire.T_CONF:
+                return
+            server = rec['dst']
+            self.n += 1
+            data = wire.ctx_uint(0, 999) + wire.ctx_uint(1, ADV_TOK + self.n)
+            apdu = wire.conf_req(inv, 18, data, maxsegs=0, maxresp=5)
+            self._send(str(ADV_ADDR), server, wire.encode_npdu(apdu, der=True), d, 'foreign-request')
+
+    def _live_ids(self, client, server):
+        """ids the client stack currently tracks toward that server (read-only
+        probe of the stack; used for adversary decisions, never by an oracle)"""
+        live = set()
+        for name, st in self.h.stacks.items():
+            if str(st.address) == client:
+                for tr in st.smap.clientTransactions:
+                    if str(tr.pdu_address) == server:
+                        live.add(tr.invokeID)
+        return live
+
+    def _fake_reply(self, kind, client, server, inv, variant):
+        w = self.h.w
+        if kind == 'foreign-reply':
+            src = str(ADV_ADDR)
+            use = inv
+        else:
+            src = server
+            live = self._live_ids(client, server)
+            use = (inv + 128) % 256
+            while use in live:
+                use = (use + 1) % 256
+        data = wire.ctx_uint(0, 999) + wire.ctx_uint(1, ADV_TOK)
+        apdu = [wire.simple_ack(use, 18), wire.complex_ack(use, 18, data), wire.error_pdu(use, 18, 0, 0),
+                wire.abort_pdu(use, 0, srv=True), wire.reject_pdu(use, 0), wire.segment_ack(use, 0, 1, srv=True)][variant]
+        self._send(src, client, wire.encode_npdu(apdu), 0.0, kind)
+
+    def _replay(self, server, client, inv, octets):
+        h = self.h
+        w = h.w
+        # only when the transaction it belonged to is over and the id is not live again
+        if inv in self._live_ids(client, server):
+            w.probe('adv.replay_skipped')
+            return
+        self._send(server, client, octets, 0.0, 'late-replay')
+
+    def _send(self, src, dst, octets, d, kind):
+        w = self.h.w
+        pdu = PDU(octets, source=Address(int(src)), destination=Address(int(dst)))
+
+        def deliver():
+            w.log('adv', kind, src, dst, bytes(octets).hex())
+            w.probe('adv.' + kind)
+            self.lan._deliver(pdu)
+        if d > 0:
+            w.after(d, deliver)
+        else:
+            deliver()
